@@ -20,7 +20,10 @@ impl <T> Drop for HeapStorage<T> {
     fn drop(&mut self) {
         unsafe {
             #[cfg(feature = "vmem")]
-            libc::munmap(self.inner as _, 2 * self.len * size_of::<T>());
+            {
+                core::ptr::drop_in_place(core::ptr::slice_from_raw_parts_mut(self.inner, self.len));
+                libc::munmap(self.inner as _, 2 * self.len * size_of::<T>());
+            }
 
             #[cfg(not(feature = "vmem"))]
             let _ = Box::from_raw(core::ptr::slice_from_raw_parts_mut(self.inner, self.len));
